@@ -191,6 +191,16 @@ def gen_cases(tier: str, seed: int) -> List[Dict]:
         add("subst-poly", poly=p, args=[sub], kwargs={}, mode="direct")
         sub2 = poly("b", ("q2",), (2,), 2, 2)
         add("subst-newvar", poly=p, args=[None, sub2], kwargs={}, mode="direct")
+    # multi-term polynomial arguments under exponents >= 3 and two different multi-term arguments meeting in one term: the
+    # substitution then multiplies factors with *different* exponent tables (p*p alone never does)
+    for psh in [(), (2,)]:
+        # (few atoms: the cubes of symbolic coefficients make the branch conditions non-linear)
+        p = S.make_poly_spec("a", ("q0", "q1"), [[3, 0], [1, 1], [0, 2], [0, 0]], psh, rng, 2, mode="raw", zero_prob=0.0, literal_prob=0.3)
+        b = S.make_poly_spec("b", ("q1",), [[0], [1]], (), rng, 1, mode="raw", zero_prob=0.0, literal_prob=0.0)
+        c = S.make_poly_spec("c", ("q0", "q2"), [[1, 0], [0, 2]], (), rng, 0, mode="raw", zero_prob=0.0, literal_prob=1.0)
+        add("subst-deep", poly=p, args=[b, c], kwargs={}, mode="direct")
+        add("subst-deep", poly=p, args=[b], kwargs={}, mode="direct")
+        add("subst-deep", poly=p, args=[], kwargs={"q1": c, "q0": b}, mode="direct")
     # renaming by a permutation that is not its own inverse (3-cycles need three indeterminates)
     def var(nm):
         return {"kind": "poly", "names": [nm], "exps": [[1]], "shape": [], "slots": [[1]], "mode": "raw"}
